@@ -100,6 +100,9 @@ package parser
 
 // ---- scope modifiers (C15) ----
 
+// the scope a top-level statement gets: its modifier if it has one, the documented default otherwise (C15)
+//@ pred ScopeFor(p *Parser, dflt string) = (p.peekToken.Type != token.LPAREN ? dflt : p.peek2Token.Type)
+
 //@ func (p *Parser) parseScopeModifier
 //@   requires PInv(p)
 //@   modifies p.curToken, p.peekToken, p.peek2Token, p.peek3Token, p.peek4Token, fields(p.l)
@@ -425,6 +428,7 @@ package parser
 
 //@ func (p *Parser) parseScriptStatement
 //@   include ParseFrame
+//@   ensures [C15:default-scope] result2 == nil ==> (result0 != nil && result0.Scope == old(ScopeFor(p, token.GLOBAL)) && (result0.Scope == token.GLOBAL || result0.Scope == token.LOCAL || old(p.peekToken.Type) != token.LPAREN))
 //@   ensures [C06:slot] result2 == nil ==> (ImpOK(result1) && (result1 == nil || fresh(result1)))
 //@   modifies holes
 //@   ensures [C06:complete] result2 == nil ==> ImpSize(result1) == holes - old(holes)
@@ -514,6 +518,7 @@ package parser
 
 //@ func (p *Parser) parseTextStatement
 //@   include ParseFrame
+//@   ensures [C15:default-scope] result1 == nil ==> (result0 != nil && result0.Scope == old(ScopeFor(p, token.GLOBAL)) && (result0.Scope == token.GLOBAL || result0.Scope == token.LOCAL || old(p.peekToken.Type) != token.LPAREN))
 //@   ensures [C18:text-named] result1 == nil ==> (result0 != nil && fresh(result0) && result0.Name != nil && fresh(result0.Name) && TokLoc(result0.Token))
 //@   requires [C18:text-stmts] TextStmtsOK(p)
 //@   ensures [C18:text-stmts] TextStmtsOK(p)
@@ -558,6 +563,7 @@ package parser
 
 //@ func (p *Parser) parseMovementStatement
 //@   include ParseFrame
+//@   ensures [C15:default-scope] result1 == nil ==> (result0 != nil && result0.Scope == old(ScopeFor(p, token.LOCAL)) && (result0.Scope == token.GLOBAL || result0.Scope == token.LOCAL || old(p.peekToken.Type) != token.LPAREN))
 //@   ensures [C18:mov-named] result1 == nil ==> (result0 != nil && fresh(result0) && result0.Name != nil && fresh(result0.Name) && TokLoc(result0.Token))
 //@   ensures [C20:stack-balanced] result1 == nil ==> (SameStack(p.breakStack, old(p.breakStack)) && SameStack(p.continueStack, old(p.continueStack)))
 //@   ensures [C18:located] result1 != nil ==> ErrLoc(result1)
@@ -615,6 +621,7 @@ package parser
 
 //@ func (p *Parser) parseMartStatement
 //@   include ParseFrame
+//@   ensures [C15:default-scope] result1 == nil ==> (result0 != nil && result0.Scope == old(ScopeFor(p, token.LOCAL)) && (result0.Scope == token.GLOBAL || result0.Scope == token.LOCAL || old(p.peekToken.Type) != token.LPAREN))
 //@   ensures [C20:stack-balanced] result1 == nil ==> (SameStack(p.breakStack, old(p.breakStack)) && SameStack(p.continueStack, old(p.continueStack)))
 //@   ensures [C18:located] result1 != nil ==> ErrLoc(result1)
 //@ end
@@ -630,6 +637,7 @@ package parser
 
 //@ func (p *Parser) parseMapscriptsStatement
 //@   include ParseFrame
+//@   ensures [C15:default-scope] result2 == nil ==> (result0 != nil && result0.Scope == old(ScopeFor(p, token.GLOBAL)) && (result0.Scope == token.GLOBAL || result0.Scope == token.LOCAL || old(p.peekToken.Type) != token.LPAREN))
 //@   loopinv [C06:slot-inv] impData != nil && fresh(impData) && ImpOK(impData)
 //@   loopinv [C06:complete-inv] ImpSize(impData) == holes - old(holes)
 //@   ensures [C06:slot] result2 == nil ==> (ImpOK(result1) && (result1 == nil || fresh(result1)))
